@@ -28,6 +28,32 @@ type symStr struct{ t string }
 
 type symF64 struct{ t string }
 
+// symAtom is a symbolic *name*: it denotes the string "a%06d" of an SMT Int in
+// [0, 999999]. Equality and order between atoms are integer comparisons, which
+// keeps map-key and sorting reasoning in linear arithmetic; any other string
+// operation converts the atom to an SMT string term (atomStrTerm).
+type symAtom struct{ t string }
+
+func atomStrTerm(t string) string {
+	pad := "(ite (< " + t + " 10) \"00000\" (ite (< " + t + " 100) \"0000\" (ite (< " + t + " 1000) \"000\" (ite (< " + t + " 10000) \"00\" (ite (< " + t + " 100000) \"0\" \"\")))))"
+	return "(str.++ \"a\" " + pad + " (str.from_int " + t + "))"
+}
+
+// atomOfConcrete returns the atom index denoted by a concrete string, if it has the atom shape.
+func atomOfConcrete(s string) (int, bool) {
+	if len(s) != 7 || s[0] != 'a' {
+		return 0, false
+	}
+	n := 0
+	for i := 1; i < 7; i++ {
+		if s[i] < '0' || s[i] > '9' {
+			return 0, false
+		}
+		n = n*10 + int(s[i]-'0')
+	}
+	return n, true
+}
+
 // bigv is the payload of a math/big.Int: field 0 of the big.Int structure.
 // c != nil means concrete.
 type bigv struct {
@@ -37,7 +63,7 @@ type bigv struct {
 
 func isSym(v value) bool {
 	switch v.(type) {
-	case symBool, symInt, symStr, symF64:
+	case symBool, symInt, symStr, symF64, symAtom:
 		return true
 	}
 	return false
@@ -311,10 +337,19 @@ func tdivTerm(x, y string) string {
 }
 
 func symBinop(op token.Token, t types.Type, x, y value) value {
+	// names (atoms)
+	xa, xIsAtom := x.(symAtom)
+	ya, yIsAtom := y.(symAtom)
+	if xIsAtom || yIsAtom {
+		if r, ok := atomCompare(op, x, y, xa, ya, xIsAtom, yIsAtom); ok {
+			return r
+		}
+		// fall through to SMT strings
+	}
 	// strings
 	_, xs := x.(symStr)
 	_, ys := y.(symStr)
-	if xs || ys {
+	if xs || ys || xIsAtom || yIsAtom {
 		xt, yt := strTerm(x), strTerm(y)
 		switch op {
 		case token.ADD:
@@ -448,12 +483,114 @@ func unsignedOf(y value) value {
 	return y
 }
 
+// atomCompare decides comparisons involving atoms in integer arithmetic when possible.
+func atomCompare(op token.Token, x, y value, xa, ya symAtom, xIsAtom, yIsAtom bool) (value, bool) {
+	switch op {
+	case token.EQL, token.NEQ, token.LSS, token.LEQ, token.GTR, token.GEQ:
+	default:
+		return nil, false
+	}
+	var xt, yt string
+	switch {
+	case xIsAtom && yIsAtom:
+		xt, yt = xa.t, ya.t
+	case xIsAtom:
+		ys, ok := y.(string)
+		if !ok {
+			return nil, false
+		}
+		if n, ok := atomOfConcrete(ys); ok {
+			xt, yt = xa.t, itoa(n)
+		} else {
+			// a concrete string that is not an atom: never equal; order decided against the atom language
+			return atomVsOther(op, ys, false)
+		}
+	default:
+		xs, ok := x.(string)
+		if !ok {
+			return nil, false
+		}
+		if n, ok := atomOfConcrete(xs); ok {
+			xt, yt = itoa(n), ya.t
+		} else {
+			return atomVsOther(op, xs, true)
+		}
+	}
+	switch op {
+	case token.EQL:
+		return mkBool("(= " + xt + " " + yt + ")"), true
+	case token.NEQ:
+		return mkBool("(not (= " + xt + " " + yt + "))"), true
+	case token.LSS:
+		return mkBool("(< " + xt + " " + yt + ")"), true
+	case token.LEQ:
+		return mkBool("(<= " + xt + " " + yt + ")"), true
+	case token.GTR:
+		return mkBool("(> " + xt + " " + yt + ")"), true
+	case token.GEQ:
+		return mkBool("(>= " + xt + " " + yt + ")"), true
+	}
+	return nil, false
+}
+
+// atomVsOther compares an arbitrary atom with a concrete non-atom string c.
+// concreteOnLeft tells whether c is the left operand.
+func atomVsOther(op token.Token, c string, concreteOnLeft bool) (value, bool) {
+	// every atom lies in ["a000000", "a999999"]
+	lo, hi := "a000000", "a999999"
+	var cLess, cGreater bool // c < every atom, c > every atom
+	switch {
+	case c < lo:
+		cLess = true
+	case c > hi:
+		cGreater = true
+	default:
+		return nil, false // c sits inside the atom range without being an atom (e.g. "a12"): use SMT strings
+	}
+	atomLess := cGreater // atom < c
+	_ = cLess
+	var r bool
+	switch op {
+	case token.EQL:
+		r = false
+	case token.NEQ:
+		r = true
+	case token.LSS:
+		if concreteOnLeft {
+			r = !atomLess
+		} else {
+			r = atomLess
+		}
+	case token.LEQ:
+		if concreteOnLeft {
+			r = !atomLess
+		} else {
+			r = atomLess
+		}
+	case token.GTR:
+		if concreteOnLeft {
+			r = atomLess
+		} else {
+			r = !atomLess
+		}
+	case token.GEQ:
+		if concreteOnLeft {
+			r = atomLess
+		} else {
+			r = !atomLess
+		}
+	}
+	return r, true
+}
+
 func strTerm(v value) string {
 	switch v := v.(type) {
 	case string:
 		return smtStrLit(v)
 	case symStr:
 		return v.t
+	case symAtom:
+		return atomStrTerm(v.t)
 	}
 	panic(engineErr(fmt.Sprintf("strTerm: %T", v)))
 }
@@ -561,6 +698,10 @@ func symConv(dst *types.Basic, x value) value {
 			}
 		}
 	case symStr:
+		if dk == types.String {
+			return x
+		}
+	case symAtom:
 		if dk == types.String {
 			return x
 		}
